@@ -306,13 +306,17 @@ func (o Options) shapes() []Program {
 		ps = append(ps, Program{Shape: ShapeCogroup3, Src: src, Src2: second(src)})
 		// ShapeFanout: every ordered pair of different consumers out of
 		// {unshuffled, Reshard to each shard count}, with the shared slice
-		// materialized and (control) not materialized.
+		// materialized and (control, for the pairs with an unshuffled consumer)
+		// not materialized.
 		kinds := append([]int{0}, o.Shards...)
 		for _, n1 := range kinds {
 			for _, n2 := range kinds {
-				if n1 != n2 {
-					out = append(out, Program{Shape: ShapeFanout, Src: src, N1: n1, N2: n2, Ext: Ext{Pragma: PragmaMaterialize, PragmaPos: -2}},
-						Program{Shape: ShapeFanout, Src: src, N1: n1, N2: n2})
+				if n1 == n2 {
+					continue
+				}
+				out = append(out, Program{Shape: ShapeFanout, Src: src, N1: n1, N2: n2, Ext: Ext{Pragma: PragmaMaterialize, PragmaPos: -2}})
+				if n1 == 0 || n2 == 0 {
+					out = append(out, Program{Shape: ShapeFanout, Src: src, N1: n1, N2: n2})
 				}
 			}
 		}
